@@ -53,11 +53,13 @@ MCView == vars
 
 (* the formulas, named as the check reports them                              *)
 Violated ==
-  {n \in {"ConvergedAtQuiescence", "ResyncAfterDrift", "NoForeverBlock", "ReadYourWrite"} :
+  {n \in {"ConvergedAtQuiescence", "ResyncAfterDrift", "NoForeverBlock", "ReadYourWrite",
+          "PushDeliveredAtQuiescence"} :
      CASE n = "ConvergedAtQuiescence" -> ~ConvergedAtQuiescence
        [] n = "ResyncAfterDrift" -> ~ResyncAfterDrift
        [] n = "NoForeverBlock" -> ~NoForeverBlock
-       [] n = "ReadYourWrite" -> ~ReadYourWrite}
+       [] n = "ReadYourWrite" -> ~ReadYourWrite
+       [] n = "PushDeliveredAtQuiescence" -> ~PushDeliveredAtQuiescence}
 
 (* schedule emission: one CEX line per QUIESCENT violating state (BFS: a        *)
 (* shortest history; quiescent, so that what the harness observes after        *)
